@@ -8,7 +8,7 @@ Import ListNotations.
 Record Num := {
   T : Type;
   add : T -> T -> T; sub : T -> T -> T; mul : T -> T -> T; div : T -> T -> T;
-  nabs : T -> T; nsqrt : T -> T; gtb : T -> T -> bool; ltb : T -> T -> bool;
+  nabs : T -> T; nsqrt : T -> T; gtb : T -> T -> bool; ltb : T -> T -> bool; eqb : T -> T -> bool;
   zero : T; one : T; two : T; half : T
 }.
 
@@ -50,4 +50,22 @@ Section Rules.
   (* _quantile: numerator / sqrt(r**2 + eps) *)
   Definition quantile_w (q eps r : T N) : T N :=
     (if gtb N r (zero N) then q else one N - q) / nsqrt N (r * r + eps).
+
+  (* ---- default / derived parameters of the rules ---- *)
+
+  (* _quantile, eps=None: documented default (1e-6 * max(abs(fit)))**2.  The reduction max(abs(fit))
+     enters as an input like the other reductions; [c] is the constant 1e-6.  The code then uses
+     max(eps, _MIN_FLOAT) (Python max: the second argument wins only if it is greater). *)
+  Definition eps_default (c max_abs_fit : T N) : T N := (max_abs_fit * c) * (max_abs_fit * c).
+  Definition eps_choice (c max_abs_fit : T N) (eps : option (T N)) : T N :=
+    match eps with None => eps_default c max_abs_fit | Some e => e end.
+  Definition eps_floor (minf e : T N) : T N := if gtb N minf e then minf else e.
+  Definition quantile_full_w (c minf q max_abs_fit : T N) (eps : option (T N)) (r : T N) : T N :=
+    quantile_w q (eps_floor minf (eps_choice c max_abs_fit eps)) r.
+
+  (* _safe_std on >= 2 values (fewer never reach it: early exit): the standard deviation, replaced
+     by _MIN_FLOAT when it is exactly 0 *)
+  Definition safe_std (minf std : T N) : T N := if eqb N std (zero N) then minf else std.
+  Definition drpls_full_w (minf scale std mean r : T N) : T N := drpls_w scale (safe_std minf std) mean r.
+  Definition iarpls_full_w (minf scale std r : T N) : T N := iarpls_w scale (safe_std minf std) r.
 End Rules.
